@@ -46,12 +46,12 @@ Fixpoint parse_flds02 (n : nat) (fs : list field) : option (list fld * list fiel
   | O => Some ([], fs)
   | S n' =>
     match fs with
-    | FZ id :: FZ req :: FZ nk :: r =>
+    | FZ id :: FZ req :: FZ vm :: FZ nk :: r =>
       if (nk <? 0) || (nk >? 16) then None else
       match parse_keys02 (Z.to_nat nk) r with
       | Some (ks, r1) =>
         match parse_ty02 (S (length r1)) r1 with
-        | Some (t, r2) => match parse_flds02 n' r2 with Some (l, r3) => Some (mkFld id ks t req :: l, r3) | None => None end
+        | Some (t, r2) => match parse_flds02 n' r2 with Some (l, r3) => Some (mkFld id ks t req (negb (vm =? 0)) :: l, r3) | None => None end
         | None => None
         end
       | None => None
@@ -93,7 +93,7 @@ Fixpoint parse_obs02 (n : nat) (fs : list field) : option (list (Z * list Z * Z 
     end
   end.
 
-Definition opts02 (bits : Z) : jopts := mkOpts (Z.odd bits) (Z.odd (bits / 2)) (Z.odd (bits / 4)).
+Definition opts02 (bits : Z) : jopts := mkOpts (Z.odd bits) (Z.odd (bits / 2)) (Z.odd (bits / 4)) (Z.odd (bits / 8)).
 
 (* ---- text transformations used to recognise recorded deviations ---- *)
 
@@ -188,13 +188,19 @@ Section Judge.
     | Ok b =>
       if ec =? 0 then
         if bytes_eqb out (pre ++ b) then VOk
-        else if res_is (j2t_text (mkPolicy num_drift false) D o t text) pre out then VDrift 1   (* "-0" for a double; integers beyond 2^53 spelled with fraction/exponent *)
+        else if res_is (j2t_text (mkPolicy num_drift false false) D o t text) pre out then VDrift 1   (* "-0" for a double; integers beyond 2^53 spelled with fraction/exponent *)
+        else if res_is (j2t_text (mkPolicy num_drift false true) D o t text) pre out then VKnown 208  (* api.js_conv on an i16 field: one extra byte *)
         else VBad 1 [FB b; FZ cp]
       else
         (* finding 203: an escape sequence inside a base64 binary / a string-spelled number is not unescaped by the code *)
         match j2t_text strict D o t (poison (length text) text) with
         | Err _ => VKnown 203
-        | Ok _ => VBad 2 [FB b; FZ cp; FZ ec]
+        | Ok _ =>
+          (* finding 209: a null member for an api.js_conv field is an error instead of being omitted *)
+          match j2t_text (mkPolicy num_strict false true) D o t text with
+          | Err _ => VKnown 209
+          | Ok _ => VBad 2 [FB b; FZ cp; FZ ec]
+          end
         end
     | Err c =>
       if negb (ec =? 0) then (if (c =? E_UNKNOWN) && negb (ec =? 1) then VDrift 3 else VOk)
@@ -205,8 +211,9 @@ Section Judge.
           match json_parse_prefix text with
           | Some (JNull, _) => if bytes_eqb out pre then VKnown 204 else VBad 4 [FZ cp]
           | Some _ =>
-            if res_is (j2t_text (mkPolicy num_code false) D o t text) pre out then VKnown 202
-            else if res_is (j2t_text (mkPolicy num_code true) D o t text) pre out then VKnown 206
+            if res_is (j2t_text (mkPolicy num_code false false) D o t text) pre out then VKnown 202
+            else if res_is (j2t_text (mkPolicy num_code true false) D o t text) pre out then VKnown 206
+            else if res_is (j2t_text (mkPolicy num_code true true) D o t text) pre out then VKnown 208
             else VBad 5 [FZ c; FZ cp]
           | None =>
             if res_is (j2t_text strict D o t (repair_ctl false false text)) pre out then VKnown 205 else VBad 6 [FZ cp]
